@@ -745,6 +745,11 @@ class _ExprMixin:
                         all(isinstance(i[1], Const) for i in o.items):
                     r = any(i[1] == a for i in o.items)
                     return Const(r if op == "in" else not r)
+                if isinstance(o, ListObj) and o.concrete() and 0 < len(o.items) <= 6 and \
+                        not any(isinstance(i[1], Ref) for i in o.items) and not isinstance(a, Ref):
+                    # x in (a, b, c) over known elements: x == a or x == b or x == c
+                    r = or_(*[compare("eq", a, i[1]) for i in o.items])
+                    return r if op == "in" else not_(r)
                 if self.is_dispatch_table(o):
                     r = or_(*[compare("eq", a, k) for k, _, _, _ in self.dedup(o)])
                     return r if op == "in" else not_(r)
@@ -1550,7 +1555,7 @@ class _StmtMixin:
                     self.assign(e.value, Op("unpack*", v, Const(i)), st)
                 elif lo is not None and lo.concrete() and len(lo.items) == n:
                     self.assign(e, lo.items[i][1], st)
-                elif isinstance(v, Const) and isinstance(v.v, tuple) and len(v.v) == n:
+                elif isinstance(v, Const) and isinstance(v.v, (tuple, bytes, str)) and len(v.v) == n:
                     self.assign(e, Const(v.v[i]), st)
                 elif isinstance(v, Ite):
                     self.assign(e, self.unpack_ite(v, i, n), st)
@@ -2582,6 +2587,13 @@ class _ExtMixin:
                 t = self.truth(it[2])
                 hits.append(Op("exists", Const(it[1].lid), and_(it[3], t if want else not_(t))))
         return or_(*hits)
+
+    def x_map(self, a, k, n):
+        if len(a) == 2:
+            els = self.concrete_iter(self.simp(a[1]))
+            if els is not None and len(els) <= UNROLL_MAX:
+                return self.mk_list([self.call_value(a[0], [e], {}, n) for e in els])
+        return None
 
     def x_sum(self, a, k, n):
         items = self.seq_items(a[0], n)
